@@ -237,7 +237,8 @@ class Scenario:
         rq["keep"] = (rig.hget(r["hdrs"], "connection", "").lower() != "close") and r["complete"]
 
     def parse_lookup(self, chunk_lines, start):
-        """from index start: is there a startHelperLookup, and was it submitted? stops at the next resume/creation marker"""
+        """from index start: is there a startHelperLookup, and was it submitted? stops at the next resume/creation marker.
+        -> (looked, submitted): submitted is True, False (queued) or "toolong" (Squid refused to build the helper line)"""
         looked, submitted = False, False
         for l in chunk_lines[start:]:
             if "CreateAuthUser: header" in l or "authenticate: header " in l or "HandleReply: reply" in l:
@@ -246,6 +247,8 @@ class Scenario:
                 looked = True
             elif looked and "submit:  buf[" in l:
                 submitted = True
+            elif looked and "Basic Authentication Failure" in l:
+                submitted = "toolong"
         return looked, submitted
 
     def take_helper_line(self):
@@ -353,7 +356,11 @@ class Scenario:
                             elif "updateCached: new password found" in l and parts and parts[-1] == "same":
                                 parts[-1] = "swap"
                         looked, submitted = self.parse_lookup(lines, i0 + 1)
-                    if looked and submitted:
+                    if looked and submitted == "toolong":
+                        self.wait_response(tag)
+                        parts.append("toolong")
+                        parts.append("@%d" % tag)
+                    elif looked and submitted:
                         k = self.take_helper_line()
                         if k is None:
                             return self.fail("helper-line-missing a%d" % tag)
@@ -411,7 +418,10 @@ class Scenario:
                         break
                 toks_r = []
                 for tg, looked, submitted in resumed:
-                    if looked and submitted:
+                    if looked and submitted == "toolong":
+                        self.wait_response(tg)
+                        toks_r.append("%d=toolong,@%d" % (tg, tg))
+                    elif looked and submitted:
                         kk = self.take_helper_line()
                         if kk is None:
                             return self.fail("helper-line-missing r%d" % k)
